@@ -323,6 +323,8 @@ H("endpoint_connect_failure_native", ["C09"], "replay-only", "endpoint::connect_
   [("x", "u8")], 4, [], ["Endpoint::connect", "Endpoint::new_cid"], "native replay body of E2 query e2_endpoint_connect_cid_leak; demonstration for finding 16")
 H("endpoint_retire_and_drained_native", ["C09", "C08"], "replay-only", "endpoint::retire_and_drained_native",
   [("allow_more", "bool")], 4, [], ["Endpoint::handle_event", "Endpoint::send_new_identifiers", "ConnectionIndex::retire", "ConnectionIndex::remove"], "native replay body of E2 query e2_endpoint_retire_and_drained_events")
+H("token_bloom_fractional_lifetime_native", ["C14"], "replay-only", "token::bloom_fractional_lifetime_native",
+  [("x", "u8")], 4, [], ["BloomTokenLog::check_and_insert"], "native replay body of E2 query e2_bloom_period_index (replay workspace builds quinn-proto with its `bloom` feature)")
 H("token_bloom_replay_native", ["C14"], "replay-only", "token::bloom_replay_native",
   [("n", "u16"), ("budget", "u16")], 4, [], ["BloomTokenLog::check_and_insert", "Filter::check_and_insert"], "native replay body of E2 query e2_bloom_filter_check_and_insert (replay workspace builds quinn-proto with its `bloom` feature)")
 H("token_from_header_native", ["C14"], "replay-only", "token::from_header_native",
